@@ -25,6 +25,18 @@ func EdgeOutcome(pred, b *ssa.BasicBlock) (succ int, known bool) {
 	if !ok || len(b.Succs) != 2 || b.Succs[0] == b.Succs[1] {
 		return 0, false
 	}
+	if cv, cneg := BoolCond(iff.Cond); cv != nil {
+		if cst, isC := cv.(*ssa.Const); isC && cst.Value != nil {
+			val := cst.Value.String() == "true"
+			if cneg {
+				val = !val
+			}
+			if val {
+				return 0, true
+			}
+			return 1, true
+		}
+	}
 	pi := -1
 	for i, p := range b.Preds {
 		if p == pred {
@@ -95,10 +107,8 @@ func nilness(v ssa.Value, at *ssa.BasicBlock) int {
 
 // threadedSuccs lists the successors of b for a path that entered b through pred (nil = unknown).
 func threadedSuccs(pred, b *ssa.BasicBlock) []*ssa.BasicBlock {
-	if pred != nil {
-		if i, ok := EdgeOutcome(pred, b); ok {
-			return []*ssa.BasicBlock{b.Succs[i]}
-		}
+	if i, ok := EdgeOutcome(pred, b); ok {
+		return []*ssa.BasicBlock{b.Succs[i]}
 	}
 	return b.Succs
 }
@@ -183,4 +193,28 @@ func searchEdges(start *ssa.BasicBlock, removed map[Edge]bool, visit func(b, pre
 		}
 	}
 	return false
+}
+
+// ExitOrigins: the blocks in which the value returned as result #idx by r was decided: for a
+// merged result variable of an expanded helper, the blocks that assigned a non-nil value and
+// jumped to the merge point; otherwise the block of the return itself.
+func ExitOrigins(r *ssa.Return, idx int) []*ssa.BasicBlock {
+	if idx < 0 || idx >= len(r.Results) {
+		return []*ssa.BasicBlock{r.Block()}
+	}
+	phi, ok := r.Results[idx].(*ssa.Phi)
+	if !ok || !IsExpansionTemp(phi) {
+		return []*ssa.BasicBlock{r.Block()}
+	}
+	var out []*ssa.BasicBlock
+	for i, e := range phi.Edges {
+		if nilness(e, phi.Block().Preds[i]) == 1 {
+			continue
+		}
+		out = append(out, phi.Block().Preds[i])
+	}
+	if len(out) == 0 {
+		return []*ssa.BasicBlock{r.Block()}
+	}
+	return out
 }
